@@ -200,7 +200,7 @@ def observe(x):
         return dict(kind="nalpha", cls="KmerAlphabet", chars=[num(c) for c in x], gap=num(x.gap_char), missing=num(x.missing_char), k=int(x.k),
                     ncanon=int(x.num_canonical), mono=observe(x.monomers))
     if isinstance(x, nalpha.CodonAlphabet):
-        return dict(kind="nalpha", cls="CodonAlphabet", chars=[num(c) for c in x], gap=num(x.gap_char), gap_index=num(x.gap_index),
+        return dict(kind="nalpha", cls="CodonAlphabet", chars=[num(c) for c in x], gap=num(x.gap_char),
                     ncanon=int(x.num_canonical), mono=observe(x.monomers))
     if isinstance(x, _SubstitutionModel):
         d = dict(kind="sm", cls=type(x).__name__, name=x.name, motifs=[str(m) for m in x.get_motifs()], params=sorted(x.get_param_list()),
@@ -774,7 +774,13 @@ def case_table(p):
             if isinstance(e, KeyError) and e.args and e.args[0] == k:
                 raise
             log.append(type(e).__name__)
-    return dict(cls=prov(t), obs=observe(t), routes=routes_for(t), oplog=log)
+    try:
+        o = observe(t)
+    except ValueError as e:
+        # the history left a table that cannot even be displayed (e.g. an index column made non-unique by appended()):
+        # not a state the round-trip property talks about
+        return dict(cls=prov(t), obs={"kind": "unobservable", "why": str(e)[:100]}, routes={}, oplog=log)
+    return dict(cls=prov(t), obs=o, routes=routes_for(t), oplog=log)
 
 
 def case_darr(p):
@@ -796,12 +802,15 @@ def case_darr(p):
         from cogent3 import make_aligned_seqs
 
         a = make_aligned_seqs(p["seqs"], moltype="dna")
-        t = a.distance_matrix(calc=p.get("calc", "pdist"), drop_invalid=False)
+        try:
+            t = a.distance_matrix(calc=p.get("calc", "pdist"), drop_invalid=False)
+        except ArithmeticError:
+            t = a.distance_matrix(calc="pdist", drop_invalid=False)
     elif p["kind"] == "profile":
         from cogent3 import make_aligned_seqs
 
         a = make_aligned_seqs(p["seqs"], moltype="dna")
-        t = a.counts_per_pos() if p["what"] == "counts" else a.probs_per_pos() if p["what"] == "probs" else a.counts_per_seq() if p["what"] == "counts_seq" else a.probs_per_pos().to_pssm(pseudocount=1) if hasattr(a.probs_per_pos(), "to_pssm") else a.counts_per_pos().to_pssm(pseudocount=1)
+        t = a.counts_per_pos() if p["what"] == "counts" else a.probs_per_pos() if p["what"] == "probs" else a.counts_per_seq() if p["what"] == "counts_seq" else a.probs_per_pos().to_pssm()
     for op in p.get("ops", []):
         k = op[0]
         try:
@@ -924,7 +933,14 @@ def case_sm(p):
         from cogent3.evolve.predicate import MotifChange
 
         c = p["custom"]
+        if c.get("mod") == "ns":
+            from cogent3.evolve import ns_substitution_model as smod
         klass = getattr(smod, c["cls"])
+        if "alphabet" in c:
+            from cogent3 import get_moltype
+
+            a = get_moltype(c["alphabet"]).alphabet
+            c.setdefault("kw", {})["alphabet"] = a
         preds = None
         if c.get("predicates"):
             preds = {}
@@ -1207,7 +1223,45 @@ def case_dispatch(p):
     return dict(cls="dispatch", obs={"kind": "dispatch", "chosen": out}, routes={}, oplog=[])
 
 
-GENS = dict(seq=case_seq, view=case_view, aln=case_aln, aligned=case_aligned, imap=case_imap, span=case_span, tree=case_tree, table=case_table,
+def case_misc(p):
+    k = p["kind"]
+    log = []
+    if k == "aseq":
+        from cogent3 import get_moltype
+
+        x = get_moltype(p["moltype"]).make_array_seq(p["seq"], name=p.get("name"))
+        for op in p.get("ops", []):
+            try:
+                if op[0] == "slice":
+                    x = x[slice(op[1], op[2], op[3])]
+                elif op[0] == "rc":
+                    x = x.rc()
+                log.append(True)
+            except Exception as e:  # noqa: BLE001
+                log.append(type(e).__name__)
+    elif k == "treenode":
+        from cogent3.core.tree import TreeNode
+        from cogent3.parse.tree import DndParser
+
+        x = DndParser(p["newick"], constructor=TreeNode)
+    elif k == "seqsdata":
+        from cogent3 import make_unaligned_seqs
+
+        c = make_unaligned_seqs(p["seqs"], moltype=p["moltype"], new_type=True)
+        for op in p.get("ops", []):
+            try:
+                if op[0] == "rc":
+                    c = c.rc()
+                elif op[0] == "take_seqs":
+                    c = c.take_seqs(op[1])
+                log.append(True)
+            except Exception as e:  # noqa: BLE001
+                log.append(type(e).__name__)
+        x = c.seqs
+    return dict(cls=prov(x), obs=observe(x), routes=routes_for(x), oplog=log)
+
+
+GENS = dict(misc=case_misc, seq=case_seq, view=case_view, aln=case_aln, aligned=case_aligned, imap=case_imap, span=case_span, tree=case_tree, table=case_table,
             darr=case_darr, alpha=case_alpha, sm=case_sm, lf=case_lf, result=case_result, db=case_db, seq_db=case_seq_db,
             inventory=case_inventory, dispatch=case_dispatch)
 
